@@ -364,6 +364,9 @@ def validate_shard(run, wd, trace_module, trace_file, props, workers=1, deque=Fa
     out, rc = tlc(run, wd, trace_module + '.tla', cfgname, workers=workers, xmx='3g', timeout=3000, deque=deque)
     n = sum(1 for _ in open(trace_file))
     mism = []
+    if '"DRIFT ' in out:
+        d = [l for l in out.splitlines() if l.startswith('"DRIFT ')][:3]
+        raise Infra('the verif access hooks no longer report what the trace specification expects (instrumentation drift, not a verdict): ' + ' '.join(d)[:600])
     for line in out.splitlines():
         if line.startswith('"MISMATCH '):
             mism.append(parse_mismatch(line))
